@@ -332,6 +332,9 @@ func join(a, b context, node parse.Node, nodeName string) context {
 	if a.attr.value != b.attr.value || b.attr.ambiguousValue {
 		a.attr.ambiguousValue = true
 	}
+	if a.state == stateAfterName && b.state == stateAttrName || a.state == stateAttrName && b.state == stateAfterName || b.attr.ambiguousNameEnd {
+		a.attr.ambiguousNameEnd = true
+	}
 
 	if a.eq(b) {
 		return a
